@@ -361,7 +361,8 @@ pub fn run(args: &Args, sink: &mut Sink, rng: &mut Rng) {
     let n = args.vol(700, 12000);
     for _ in 0..n {
         let (info, prov) = gen_info(rng, &cols);
-        let e = g.tree(rng, rng.below(4) as u32);
+        let dp = rng.below(4) as u32;
+        let e = g.tree(rng, dp);
         push_case(&mut s, sink, &cols, &info, &prov, &names, &e, "unit");
     }
     // the depth limit: the innermost node of NOT^499 is visited at depth 499 (accepted), of NOT^500 at 500 (Err)
